@@ -9,6 +9,7 @@ def generate(tier, rng, pid='C01'):
     enums += strcorpus.build_soup(rng, tier, pid, prefix_pool=(None, None, 'p_'))
     ovs = strcorpus.overlap_enums(pid)
     enums += ovs
+    enums.append(strcorpus.clash_enum(pid, ['EnumString'], ['parse'], kinds=(('unit', []), ('tuple', ['u8']))))
     info = strcorpus.query_model(enums)
     c = Corpus()
     for e in enums:
